@@ -159,6 +159,11 @@ _q = _ext_universe(5)
 EXT_QUICK_IDS = [i for i, sp in enumerate(EXT) if sp in _q]      # quick: the first 5 base shapes (subset of thorough)
 
 
+def _validated(sp):
+    """has a converter whose value validation goes beyond its character pattern (range)"""
+    return any(s[0] == "var" and rr.CONVS[s[2]][3] is not None for s in sp["segs"])
+
+
 def ext_descriptors(tier):
     """("ext", (ext index | -1-base index, ...), methods)"""
     T = tier == "thorough"
@@ -166,7 +171,7 @@ def ext_descriptors(tier):
     ext_ids = list(range(len(EXT))) if T else EXT_QUICK_IDS
     for i in ext_ids:
         yield ("ext", (i,), (None,))
-        if EXT[i]["websocket"] or T:
+        if EXT[i]["websocket"] or _validated(EXT[i]) or T:
             yield ("ext", (i,), (G,))
     for i in ext_ids:
         for b in range(nb):
@@ -174,9 +179,14 @@ def ext_descriptors(tier):
                 continue        # the same pattern twice for the same requests: the second rule is unreachable (not a map
                                 # anybody means; which of the two sets of options applies is not defined)
             yield ("ext", (i, -1 - b), (None, None))
-            if EXT[i]["websocket"] or T:
+            if EXT[i]["websocket"] or _validated(EXT[i]) or T:
                 yield ("ext", (i, -1 - b), (G, P))
                 yield ("ext", (i, -1 - b), (None, P))
+    ws_plain = [j for j in ext_ids if EXT[j]["websocket"] and not EXT[j]["wrap"]][:2]
+    for i in ext_ids:
+        if _validated(EXT[i]):          # a converter that rejects values next to a websocket rule
+            for j in ws_plain:
+                yield ("ext", (i, j), (None, None))
     if T:
         for i, j in itertools.combinations(EXT_QUICK_IDS, 2):
             if rr.full_rule_string(EXT[i]) == rr.full_rule_string(EXT[j]) and EXT[i]["websocket"] == EXT[j]["websocket"]:
@@ -281,6 +291,7 @@ def run_impl(ad, p, method, websocket=None):
 
 FD_VERDICTS = {"404-but-admitted", "404-should-405", "405-but-admitted", "405-no-rule", "405-methods-extra",
                "405-methods-missing", "404-should-be-websocket-mismatch",
+               "websocket-mismatch-unjustified", "websocket-mismatch-but-admitted",
                "redirect-unjustified", "redirect-wrong-target"}
 
 
@@ -535,6 +546,14 @@ FINDINGS = {
         lambda rec: rec.get("kind") == "route" and rec.get("fd_explains") is True
         and rec.get("verdict") in FD_VERDICTS and len(_late_rules(rec)) > 0
         and all("min=" in r for r in _late_rules(rec)),      # (the only late-validated converters of the universe)
+    # what is left of it after d85bfe9: the rejected value no longer hides other rules, but the rule's methods /
+    # websocket flag are still recorded before the value is validated
+    "C03-rejected-value-counts-for-405":
+        lambda rec: rec.get("kind") == "route" and rec.get("fd_explains") is True
+        and rec.get("verdict") in ("405-no-rule", "405-methods-extra", "405-but-admitted",
+                                   "websocket-mismatch-unjustified", "websocket-mismatch-but-admitted")
+        and rec.get("outcome", ("",))[0] in ("405", "wsmismatch")
+        and len(_late_rules(rec)) > 0 and all("min=" in r for r in _late_rules(rec)),
     "C03-factory-drops-rule-options":
         lambda rec: rec.get("kind") == "route" and rec.get("factory_explains") is True
         and any(sp.get("wrap") and (sp.get("merge") is False or sp.get("websocket")) for sp in rec.get("rules", ())),
